@@ -112,6 +112,17 @@ def chk_routes(c):
         if p >= 1:
             a, b_ = np.asarray(bspline.deriv(K, coeffs, 1, q)), np.asarray(bspline.deriv(K, coeffs, 1, qf))
             assert a.shape == b_.shape and np.max(np.abs(a - b_)) <= 1e-10 * max(1.0, np.max(np.abs(b_))), 'deriv at %s points differs from deriv at the same float64 points' % nm
+    # a strided (non-contiguous) view of the points gives the same values, point by point, on every array route
+    wide = np.empty((len(pts), 3))
+    wide[:, 0], wide[:, 1], wide[:, 2] = pts[::-1], pts, -7.0
+    sv_ = wide[:, 1]                                   # column of a 2D array: stride 3
+    assert not sv_.flags['C_CONTIGUOUS'] or len(pts) <= 1
+    for nm, fn in (('active_ev', lambda q: bspline.active_ev(K, q)), ('active_deriv', lambda q: bspline.active_deriv(K, q, min(p, 2))),
+                   ('single_ev', lambda q: bspline.single_ev(K, n - 1, q)), ('ev', lambda q: bspline.ev(K, coeffs, q)),
+                   ('collocation', lambda q: bspline.collocation(K, q).toarray()), ('collocation_derivs', lambda q: bspline.collocation_derivs(K, q, derivs=min(p, 1))[-1].toarray())):
+        a, b_ = np.asarray(fn(sv_)), np.asarray(fn(pts.copy()))
+        assert a.shape == b_.shape and np.array_equal(a, b_), '%s on a strided view of the points differs from the contiguous copy (max %g)' % (
+            nm, np.max(np.abs(a - b_)) if a.shape == b_.shape else -1)
     # assembler jets
     nj = min(p, 2)
     V = np.asarray(assemble_tools.compute_values_derivs(K, pts, nj))
